@@ -872,7 +872,7 @@ def i_CMPXCHG(i, fmap):
     fmap[of] = overflow
     fmap[pf] = parity8(x[0:8])
     fmap[dst] = tst(t, fmap(src), v)
-    fmap[acc] = v
+    fmap[acc] = tst(t, fmap(acc), v)
 
 
 def i_CMPXCHG8B(i, fmap):
